@@ -215,8 +215,7 @@ def rule_laws(ctx):
 MUTATORS = {"append", "extend", "insert", "sort", "reverse", "remove", "pop", "clear", "update", "add", "setdefault"}
 
 
-def rule_readonly(ctx):
-    R = "C24.read-only"
+def rule_readonly(ctx, R="C24.read-only"):
     n = 0
     for ref in ("cross_block:MultiCrossBlock.__init__", "cross_block:CrossBlock.__init__", "cross_block:Repeat.__init__", "cross_block:Merge.__init__",
                 "cross_block:Nest.__init__", "cross_block:MultiCrossBlockRepeat._create", "block:Block.__init__"):
@@ -259,6 +258,11 @@ def rule_readonly(ctx):
                     r = rooted(c.value)
                     if r is not None and not ast.unparse(c.value).startswith("self."):
                         bad.append((st, "%s[...] (aliases %s)" % (ast.unparse(c.value), r)))
+        # a parameter list that is mutated in place (append / += on the parameter itself) also mutates the caller's list -- or the shared default
+        for st in statements(f.node):
+            for c in ast.walk(st) if not isinstance(st, (ast.For, ast.If, ast.While, ast.With, ast.Try)) else []:
+                if isinstance(c, ast.Call) and isinstance(c.func, ast.Attribute) and c.func.attr in MUTATORS and isinstance(c.func.value, ast.Name) and c.func.value.id in params:
+                    bad.append((st, "parameter `%s` (.%s)" % (c.func.value.id, c.func.attr)))
         n += 1
         ctx.check(not bad, R, f, "%s mutates no argument" % f.qual, "%s builds its lists fresh; argument blocks and parameter lists are only read" % f.qual,
                   "%s mutates %s in place: the change is visible in the argument block (its orig_* lists are what every later Repeat / Merge / Nest of that block reads)" % (
